@@ -119,6 +119,11 @@ def wr (s : WState) (it : WItem) : WState :=
 
 def run (s : WState) (items : List WItem) : WState := items.foldl wr s
 
+/-- the items the loop actually takes: it stops taking once parked (after CloseConnection) or failed -/
+def dequeued : WState → List WItem → List WItem
+  | _, [] => []
+  | s, it :: rest => if s.stopped then [] else it :: dequeued (wr s it) rest
+
 /-- an item the exported API can produce, in the ranges of the Go types -/
 def WItem.WF : WItem → Prop
   | .ack id => id < idMod
@@ -139,6 +144,15 @@ def WItem.sig : WItem → Option (Nat × Bytes)
   | _ => none
 
 def Frame.sig (f : Frame) : Nat × Bytes := (f.typ, f.payload)
+
+def WItem.ackId : WItem → Option Nat
+  | .ack id => some id
+  | _ => none
+
+/-- (type, payload) of the requests among some items, in order -/
+def reqSigs (items : List WItem) : List (Nat × Bytes) := (items.filter WItem.isReq).filterMap WItem.sig
+/-- ids of the acknowledgement items, in order -/
+def ackIds (items : List WItem) : List Nat := items.filterMap WItem.ackId
 
 /-! ## splitting a byte stream into frames (what the peer does) -/
 
